@@ -457,12 +457,22 @@ def run_history(lim: int, ops: List[int]) -> bool:
 
 def _hist_shards(tier):
     m = BOUNDS[tier]["maxlim"]
+
+    def classes(k):
+        return ["len(ops) <= %d or ops[%d] <= 1" % (k, k), "len(ops) > %d and ops[%d] == 2" % (k, k),
+                "len(ops) > %d and ops[%d] >= 3" % (k, k)]
     out = []
     for lim in range(0, m + 1):
-        out.append(("lim == %d" % lim, "len(ops) == 0 or ops[0] < 2"))
-        # first op run(f -> Deferred): split again on the second op
-        out.append(("lim == %d" % lim, "len(ops) >= 1 and ops[0] == 2", "len(ops) < 2 or ops[1] <= 2"))
-        out.append(("lim == %d" % lim, "len(ops) >= 2 and ops[0] == 2", "3 <= ops[1]"))
+        if tier == "quick":
+            out.append(("lim == %d" % lim, "len(ops) == 0 or ops[0] != 2"))
+            # first op run(f -> Deferred): split again on the second op
+            out.append(("lim == %d" % lim, "len(ops) >= 1 and ops[0] == 2", "len(ops) < 2 or ops[1] <= 2"))
+            out.append(("lim == %d" % lim, "len(ops) >= 2 and ops[0] == 2", "3 <= ops[1]"))
+        else:
+            for first in ("len(ops) == 0 or ops[0] != 2", "len(ops) >= 1 and ops[0] == 2"):
+                for c1 in classes(1):
+                    for c2 in classes(2):
+                        out.append(("lim == %d" % lim, first, c1, c2))
     return out
 
 
@@ -475,7 +485,7 @@ HARNESSES = [
     H(lock_release, timeout={"quick": 40, "thorough": 300}),
     H(lock_cancel_waiter, timeout={"quick": 40, "thorough": 300}),
     H(lock_cancel_granted, timeout={"quick": 40, "thorough": 300}),
-    H(run_history, shards=_hist_shards, timeout={"quick": 90, "thorough": 1500}),
+    H(run_history, shards=_hist_shards, timeout={"quick": 120, "thorough": 1500}),
 ]
 
 VECTORS = {
